@@ -102,8 +102,9 @@ Lemma wit_f10_passes : protocol_ok wit_f10 = true /\ p3_check wit_f10 (run_bin 3
   (let '(d, t) := last_read (run_bin 3 (firstn 5 wit_f10)) in lmem [2; 2] (served 0 d) = true /\ lmem [2; 2] (served 0 t) = true).
 Proof. vm_compute. repeat split; reflexivity. Qed.
 
-Lemma wit_f10_literal : p3_literal_check wit_f10 (run_bin 3 wit_f10) None = false.
-Proof. vm_compute. reflexivity. Qed.
+Lemma wit_f10_literal : protocol_ok wit_f10 = true /\ p3_check wit_f10 (run_bin 3 wit_f10) None = true /\
+  p3_literal_check wit_f10 (run_bin 3 wit_f10) None = false.
+Proof. vm_compute. repeat split; reflexivity. Qed.
 
 (* F5: key 0 receives a fact, pauses for one merge, receives another one *)
 Definition wit_f5 : list op := [OStart; OHead 0 0 1; OMerge; OMerge; OHead 0 1 2; OMerge; OMerge; OEnd].
@@ -161,39 +162,39 @@ Definition exact_version (E : list (nat * nat)) (c : common) : Prop :=
   (exists l, c_ind_iter_all true c = Ok l /\ (forall x, In x (map fst l) <-> mentioned E x) /\
              forall x ys, In (x, ys) l -> forall y, In y ys <-> rtc E y x).
 
-Lemma ind_iter_all_total : forall E st (H : tinv E st) (rev : bool),
+Lemma ind_iter_all_total : forall (P : nat -> Prop) E st (H : tinvP P E st) (rev : bool),
   let m := if rev then t_rev st else t_conn st in
   mapM (fun kv => do l <- by_set_id st m (snd kv); Ok (fst kv, l)) (t_ids st)
   = Ok (map (fun kv => (fst kv, bsl st m (domf st (snd kv)))) (t_ids st)).
 Proof.
-  intros E st H rev m. apply mapM_ok. intros [x i] Hin. cbn [fst snd].
+  intros P E st H rev m. apply mapM_ok. intros [x i] Hin. cbn [fst snd].
   apply in_aget in Hin; [|apply (w_ids_keys _ _ H)].
   destruct (ids_some E st H x i Hin) as [d [Hd [_ [_ [Hf _]]]]].
   assert (Hm : mset_wf st m) by (unfold m; destruct rev; [apply (w_rev _ _ H)|apply (w_conn _ _ H)]).
   rewrite (by_set_id_ok E st H m i d Hm Hd). cbn [bind]. rewrite Hf. reflexivity.
 Qed.
 
-Lemma ids_keys_mentioned : forall E st (H : tinv E st) x, In x (map fst (t_ids st)) <-> mentioned E x.
+Lemma ids_keys_mentioned : forall (P : nat -> Prop) E st (H : tinvP P E st) x, In x (map fst (t_ids st)) <-> mentioned E x.
 Proof.
-  intros E st H x. rewrite <- (m_ids _ _ H). symmetry. apply aget_some_in_keys.
+  intros P E st H x. rewrite <- (m_ids _ _ H). symmetry. apply aget_some_in_keys.
 Qed.
 
-Theorem total_exact : forall E st, tinv E st -> exact_version E (CTotal st).
+Theorem total_exact : forall (P : nat -> Prop) E st, tinvP P E st -> exact_version E (CTotal st).
 Proof.
-  intros E st H. unfold exact_version. cbn [c_contains c_iter_all c_ind_get c_ind_iter_all].
+  intros P E st H. unfold exact_version. cbn [c_contains c_iter_all c_ind_get c_ind_iter_all].
   split; [exact (q_contains E st H)|].
   split; [exact (q_iter_all E st H)|].
   split; [exact (q_set_of E st H)|].
   split; [exact (q_rev_set_of E st H)|].
   split.
-  - eexists. split; [apply (ind_iter_all_total E st H false)|]. split.
-    + intros x. rewrite map_map. cbn [fst]. apply (ids_keys_mentioned E st H).
+  - eexists. split; [apply (ind_iter_all_total P E st H false)|]. split.
+    + intros x. rewrite map_map. cbn [fst]. apply (ids_keys_mentioned P E st H).
     + intros x ys Hin y. apply in_map_iff in Hin. destruct Hin as [[x' i] [Heq Hin]]. cbn [fst snd] in Heq.
       inversion Heq; subst. apply in_aget in Hin; [|apply (w_ids_keys _ _ H)].
       destruct (ids_some E st H x i Hin) as [d [_ [Hdd [Hm [Hf _]]]]]. rewrite Hf.
       apply (set_sem E st H d x Hdd Hm).
-  - eexists. split; [apply (ind_iter_all_total E st H true)|]. split.
-    + intros x. rewrite map_map. cbn [fst]. apply (ids_keys_mentioned E st H).
+  - eexists. split; [apply (ind_iter_all_total P E st H true)|]. split.
+    + intros x. rewrite map_map. cbn [fst]. apply (ids_keys_mentioned P E st H).
     + intros x ys Hin y. apply in_map_iff in Hin. destruct Hin as [[x' i] [Heq Hin]]. cbn [fst snd] in Heq.
       inversion Heq; subst. apply in_aget in Hin; [|apply (w_ids_keys _ _ H)].
       destruct (ids_some E st H x i Hin) as [d [_ [Hdd [Hm [Hf _]]]]]. rewrite Hf.
@@ -330,7 +331,7 @@ Proof.
   intros dom ins.
   destruct (tr_reach (uniq ins [])) as [U [HU HI]].
   assert (Hex : exact_version ins (CTotal U)).
-  { pose proof (total_exact _ _ HI) as Hx.
+  { pose proof (total_exact _ _ _ HI) as Hx.
     assert (Hs : forall p, In p (uniq ins []) <-> In p ins) by (intros p; rewrite in_uniq; cbn; tauto).
     assert (Hr : forall x y, rtc (uniq ins []) x y <-> rtc ins x y) by (apply rtc_same; exact Hs).
     assert (Hm : forall x, mentioned (uniq ins []) x <-> mentioned ins x).
@@ -350,7 +351,7 @@ Proof.
     - destruct H6 as [l [Hl [Hk Hin]]]. exists l. split; [exact Hl|]. split.
       + intros x. rewrite Hk. apply Hm.
       + intros x ys Hxy y. rewrite (Hin x ys Hxy y). apply Hr. }
-  pose proof (exact_methods_total _ _ (total_exact _ _ tr_empty_inv)) as Hte.
+  pose proof (exact_methods_total _ _ (total_exact (fun _ => False) _ _ tr_empty_inv)) as Hte.
   pose proof (exact_methods_total _ _ Hex) as HtU.
   destruct (read_bin_total dom _ Hte) as [ve Hve].
   destruct (read_bin_total dom _ HtU) as [vU HvU].
@@ -1243,8 +1244,33 @@ Proof.
   - intros E st x H. destruct (elem_set_cases E st H x) as [[He _]|[d [He [_ [Hm _]]]]]; rewrite He; eexists; (split; [reflexivity|]).
     + discriminate.
     + intros s Hs. inversion Hs; subst. exact Hm.
-  - intros E st H. apply exact_sound, total_exact; exact H.
+  - intros E st H. eapply exact_sound, total_exact; exact H.
 Qed.
+
+(* ---- the interface is discharged by C18's invariant in its weak form (no entry demanded for any class): the two theorems
+   about every history of the binary form hold unconditionally *)
+Theorem tinv_weak_iface : truf_iface tinv_weak.
+Proof.
+  constructor.
+  - exact tr_empty_inv.
+  - intros E st x y H. apply tr_add_inv; exact H.
+  - intros E st x H. destruct (ann_weak E st x H) as [st' [id [fr [Ha [H' [_ [Hm [Hc [Hr [Hle Hnth]]]]]]]]]].
+    exists st', id, fr. split; [exact Ha|]. split; [exact H'|]. split; [exact Hm|]. split; [exact Hc|]. split; [exact Hr|].
+    split; [exact Hle|exact Hnth].
+  - intros E st a s b H Hin Hb. exact (weak_conn_good E st a s b H Hin Hb).
+  - intros E st a s b H Hin Hb. exact (weak_rev_good E st a s b H Hin Hb).
+  - intros E st s x y H. apply (weak_class E st s x y H).
+  - intros E st x H. apply (weak_elem E st x H).
+  - intros E st H. eapply exact_sound, total_exact; exact H.
+Qed.
+
+Theorem bin_sound : forall dom ops,
+  exists st, run_state (bin_prov dom) (ps_init (bin_prov dom)) ops = Ok st /\
+     sound_version (args ops) (s_delta st) /\ sound_version (args ops) (s_total st) /\ sound_version (args ops) (s_stored st).
+Proof. exact (bin_protocol_sound tinv_weak tinv_weak_iface). Qed.
+
+Theorem bin_never_panics : forall dom ops n e, ~ In (RPanic n e) (run_bin dom ops).
+Proof. exact (bin_never_panics_partial tinv_weak tinv_weak_iface). Qed.
 
 (* ================================================================== Part 6: the inner loop of the merge closes total + new transitively
    (class level, independent of the union-find structure: only the connection maps and the class pairs of `new` matter) *)
